@@ -234,6 +234,8 @@ func c11Op(w *c11World, op string, tag int) (res string) {
 		return e(sh.Lock([]byte("p")))
 	case "Unlock(p)":
 		return e(sh.Unlock([]byte("p")))
+	case "Close":
+		return e(sh.Close())
 	case "Extension":
 		contents := []byte(fmt.Sprintf("ext-payload-%d", tag))
 		resp, err := sh.Extension("x@verif", contents)
@@ -428,19 +430,28 @@ func c11Explore(c *ev.Ctx, k c11Case, bound, dev int) {
 	}
 }
 
-var c11Ops = []string{"List", "Signers", "Sign(K1)", "Sign(h1)", "Add(c2.cur)", "Remove(c.cur)", "RemoveAll", "AddHardCert(h1free)", "Lock(p)", "Unlock(p)", "Extension", "Forward", "SignViaSigners(h1)", "SignViaSigners(K1)"}
+var c11Ops = []string{"List", "Signers", "Sign(K1)", "Sign(h1)", "Add(c2.cur)", "Remove(c.cur)", "RemoveAll", "AddHardCert(h1free)", "Lock(p)", "Unlock(p)", "Extension", "Forward", "SignViaSigners(h1)", "SignViaSigners(K1)", "Close"}
 
 func c11Scenarios(thorough bool) []c11Case {
 	var out []c11Case
 	for _, noUp := range []bool{false, true} {
 		for i := 0; i < len(c11Ops); i++ {
 			for j := i; j < len(c11Ops); j++ {
+				if (c11Ops[i] == "Close" || c11Ops[j] == "Close") && (strings.HasPrefix(c11Ops[i], "SignViaSigners") || strings.HasPrefix(c11Ops[j], "SignViaSigners")) {
+					// SignViaSigners is two shim calls (Signers, then the signer object's Sign); a Close between them makes
+					// the second fail after the first took effect, which is no single-operation outcome and no defect
+					continue
+				}
 				out = append(out, c11Case{NoUp: noUp, Ops: []string{c11Ops[i], c11Ops[j]}})
 			}
 		}
 		// starting locked: unlock racing with everything else
 		for _, o := range c11Ops {
 			out = append(out, c11Case{NoUp: noUp, Locked: true, Ops: []string{"Unlock(p)", o}})
+		}
+		// starting locked: the owner closes the server object while a request that does not check the lock is in flight
+		for _, o := range []string{"Extension", "Forward", "List", "Close"} {
+			out = append(out, c11Case{NoUp: noUp, Locked: true, Ops: []string{"Close", o}})
 		}
 	}
 	triples := [][]string{{"Signers", "Signers", "RemoveAll"}, {"Forward", "Extension", "List"}, {"Lock(p)", "Add(c2.cur)", "Sign(K1)"}, {"List", "Signers", "Sign(h1)"},
@@ -454,7 +465,7 @@ func c11Scenarios(thorough bool) []c11Case {
 
 func checkC11(c *ev.Ctx) {
 	c11Setup()
-	c.Rule("engine E2 over real goroutines calling one real shimagent.Server (built by shimagent.New through the dial seam; sync of shimagent, yubiagent and x/crypto's agent client replaced by scheduler-visible primitives; every Write/Read on the upstream connection is a scheduling point): every unordered pair (incl. equal pairs) of {List, Signers, Sign(K1), Sign(h1), Add, Remove, RemoveAll, AddHardCert, Lock, Unlock, Extension, Forward} on two threads x both upstream modes, Unlock racing with every operation from a locked start, 12 three-thread scenarios, and 8 server-level scenarios (one yubiagent.ServeAgent thread per client connection on scheduler-visible pipes in front of one shared server/shim, preemption bound 2 and at most 3 departures from the canonical order); initial state with an expired certificate in the underlying agent AND one in memory (purging happens inside the operations) and an uncached YSSHCA certificate; two-thread scenarios: ALL interleavings (unbounded; the shim's big lock leaves at most ~130 complete schedules per pair, 6 952 in total); three-thread and server-level scenarios: preemption bound 2 (thorough 3) and at most 3 (4) departures from the canonical order. Oracles on every complete execution: all threads finish, connection-exclusion monitor, own-reply check (digest echo), brute-force linearizability against all n! sequential orders computed with the same real code. states = executions, transitions = scheduling events. Declared side pass (sampling, not deciding): the same bodies free-running under -race with 2..16 goroutines. non-trivial = execution with at least one branch point; distinct by (scenario, schedule)")
+	c.Rule("engine E2 over real goroutines calling one real shimagent.Server (built by shimagent.New through the dial seam; sync of shimagent, yubiagent and x/crypto's agent client replaced by scheduler-visible primitives; every Write/Read on the upstream connection is a scheduling point): every unordered pair (incl. equal pairs) of {List, Signers, Sign(K1), Sign(h1), Add, Remove, RemoveAll, AddHardCert, Lock, Unlock, Extension, Forward, Close} on two threads x both upstream modes, Unlock racing with every operation from a locked start, Close racing with Extension / Forward / List / Close from a locked start, 12 three-thread scenarios, and 8 server-level scenarios (one yubiagent.ServeAgent thread per client connection on scheduler-visible pipes in front of one shared server/shim, preemption bound 2 and at most 3 departures from the canonical order); initial state with an expired certificate in the underlying agent AND one in memory (purging happens inside the operations) and an uncached YSSHCA certificate; two-thread scenarios: ALL interleavings (unbounded; the shim's big lock leaves at most ~130 complete schedules per pair, 6 952 in total); three-thread and server-level scenarios: preemption bound 2 (thorough 3) and at most 3 (4) departures from the canonical order. Oracles on every complete execution: all threads finish, connection-exclusion monitor, own-reply check (digest echo), brute-force linearizability against all n! sequential orders computed with the same real code. states = executions, transitions = scheduling events. Declared side passes (not deciding): the same bodies free-running under -race with 2..16 goroutines; one real-time run with an upstream that answers a raw request after 6.5 s while a second client sends its request 5.5 s into the wait (timers and goroutines started by the code under test are outside the scheduler). non-trivial = execution with at least one branch point; distinct by (scenario, schedule)")
 	c.Assume("scheduling points at synchronisation and connection operations suffice provided there is no data race; data races are looked for by the separate free-running -race pass", "2-3 threads with one operation each; 4-16 goroutines only in the race pass")
 	if c.ReplayCase != nil {
 		var sk c11SrvCase
@@ -524,6 +535,7 @@ func checkC11(c *ev.Ctx) {
 	c.Set("scenarios", len(scen)+len(c11SrvScenarios))
 	if !c.IsChild() {
 		racePass(c)
+		c11SlowUpstream(c)
 	}
 }
 
